@@ -8,6 +8,7 @@ import (
 	"os"
 	"path/filepath"
 	"reflect"
+	"strconv"
 	"strings"
 )
 
@@ -242,6 +243,15 @@ func isUnderline(expr ast.Expr) bool {
 func isDefineStmt(stmt ast.Stmt) bool {
 	assign, ok := stmt.(*ast.AssignStmt)
 	return ok && assign.Tok == token.DEFINE
+}
+
+func importedAs(f *ast.File, path, name string) bool {
+	for _, spec := range f.Imports {
+		if spec.Name != nil && spec.Name.Name == name && spec.Path.Value == strconv.Quote(path) {
+			return true
+		}
+	}
+	return false
 }
 
 // doc comments of declarations (and of the package clause)
